@@ -10,6 +10,7 @@ usage: rust2coq.py --repo <lasso checkout> --out <dir> [--only keys|arena|lockfr
   rodeo     src/rodeo.rs                                  -> <out>/RodeoGen.v          (lower_rodeo.py)
   threaded  src/threaded_rodeo.rs                         -> <out>/ThreadedGen.v       (lower_threaded.py)
   views     src/reader.rs, src/resolver.rs, conversions   -> <out>/ViewsGen.v          (lower_views.py)
+  clone     src/rodeo.rs (clone paths)                    -> <out>/CloneGen.v          (lower_clone.py)
 
 Every function body is first prepared by astx.py (helpers of the same file inlined, idioms normalised); see there.
 Whenever the source leaves the subset the translator understands it prints
@@ -59,7 +60,12 @@ def do_views(repo, out):
     lower_views.run(repo, out)
 
 
-PARTS = {"views": (do_views, "src/reader.rs"), "threaded": (do_threaded, "src/threaded_rodeo.rs"), "keys": (do_keys, "src/keys.rs"), "arena": (do_arena, "src/arenas"), "lockfree": (do_lockfree, "src/arenas"),
+def do_clone(repo, out):
+    import lower_clone
+    lower_clone.run(repo, out)
+
+
+PARTS = {"clone": (do_clone, "src/rodeo.rs"), "views": (do_views, "src/reader.rs"), "threaded": (do_threaded, "src/threaded_rodeo.rs"), "keys": (do_keys, "src/keys.rs"), "arena": (do_arena, "src/arenas"), "lockfree": (do_lockfree, "src/arenas"),
          "rodeo": (do_rodeo, "src/rodeo.rs")}
 
 
